@@ -72,7 +72,7 @@ VEC_TYPES = dict(VEC_CONFIGS)
 
 # rebuilt under other language standards (no move-only element: needs if constexpr)
 VEC_MULTISTD = ['vec_0_ntr_u32_std', 'vec_0_tr_u32_re', 'sv_3_ntr_u32_std', 'sv_4_tr_u32_re', 'sv_2_tc3_u32_amc', 'fcv_6_ntr', 'sv_3_i32_i32_amc', 'sv_2_tc7_u32_std',
-                'sv_3_tc3_u16_re']
+                'sv_3_tc3_u16_re', 'sv_1_tc12_u32_amc']
 
 
 def vec_subset(pred):
